@@ -377,6 +377,9 @@ func CallOfFn(name string, fns ...*ssa.Function) Site {
 // StoreTo matches stores whose address is the given field (of any base).
 func StoreTo(name string, field *types.Var) Site {
 	return Site{Name: name, Instr: func(in ssa.Instruction) bool {
+		if op, _, ok := AtomicOpOn(in, field); ok && op != "Load" {
+			return true
+		}
 		st, ok := in.(*ssa.Store)
 		if !ok {
 			return false
@@ -392,6 +395,9 @@ func StoreTo(name string, field *types.Var) Site {
 
 // StoredValue returns the stored value if in is a store to field.
 func StoredValue(in ssa.Instruction, field *types.Var) (ssa.Value, bool) {
+	if op, v, ok := AtomicOpOn(in, field); ok && op != "Load" && v != nil {
+		return v, true
+	}
 	st, ok := in.(*ssa.Store)
 	if !ok {
 		return nil, false
@@ -414,7 +420,48 @@ func LoadOf(name string, field *types.Var) Site {
 	}}
 }
 
+// AtomicOpOn: in is a call of a sync/atomic method (Load, Store, Swap, CompareAndSwap, Add) on the address of the
+// given field (a field whose type is one of the sync/atomic value types). For writes the new value is returned.
+func AtomicOpOn(in ssa.Instruction, field *types.Var) (op string, val ssa.Value, ok bool) {
+	ci, isCall := in.(ssa.CallInstruction)
+	if !isCall {
+		return "", nil, false
+	}
+	cc := ci.Common()
+	if cc.IsInvoke() || len(cc.Args) == 0 {
+		return "", nil, false
+	}
+	o := CalleeObj(cc)
+	if o == nil || o.Pkg() == nil || o.Pkg().Path() != "sync/atomic" {
+		return "", nil, false
+	}
+	fa, isFA := cc.Args[0].(*ssa.FieldAddr)
+	if !isFA {
+		return "", nil, false
+	}
+	st := derefStruct(fa.X.Type())
+	if st == nil || st.Field(fa.Field) != field {
+		return "", nil, false
+	}
+	switch o.Name() {
+	case "Load":
+		return "Load", nil, true
+	case "Store", "Swap", "Add":
+		if len(cc.Args) >= 2 {
+			return o.Name(), cc.Args[1], true
+		}
+	case "CompareAndSwap":
+		if len(cc.Args) >= 3 {
+			return o.Name(), cc.Args[2], true
+		}
+	}
+	return "", nil, false
+}
+
 func IsLoadOf(in ssa.Instruction, field *types.Var) bool {
+	if op, _, ok := AtomicOpOn(in, field); ok && op == "Load" {
+		return true
+	}
 	switch x := in.(type) {
 	case *ssa.UnOp:
 		if x.Op != token.MUL {
